@@ -72,13 +72,7 @@ namespace XKoJen
         */
         virtual ~threaded_dispatcher()
         {
-            m_shutting_down = true;
-            m_queue.wake_up();
-            for (auto& thread : m_threads){
-                if (thread.joinable()){
-                    thread.join();
-                }
-            }
+            stop();
         }
         /** Dispatch an item and transfer ownership to the dispatcher.
         *
@@ -102,6 +96,22 @@ namespace XKoJen
         *	@param item the item to be dispatched.
         */
         virtual void handle_dispatch(ptr_type item) = 0;
+
+        /** Stops and joins the worker threads (idempotent).
+        *
+        *	A derived class must call this first thing in its destructor: handle_dispatch() is implemented
+        *	there and must not be running, or be called, once the derived object is being destroyed.
+        */
+        void stop()
+        {
+            m_shutting_down = true;
+            m_queue.wake_up();
+            for (auto& thread : m_threads){
+                if (thread.joinable()){
+                    thread.join();
+                }
+            }
+        }
     private:
         void handle_dispatch_internal()
         {
